@@ -740,12 +740,49 @@ func runDaemonInterchange(t *testing.T, rc *RunCtx, prop string) {
 		}
 		released[pop.Accts[k].KName] = w
 	}
+	cwd := func(tag string) string { return filepath.Join(d.Base, "shell-"+tag) }
+	// A third of the C10 runs: the operator runs the import while the daemon is still up.  Refused (the storage is in use)
+	// or carried out, an import that reports success binds the daemon that is running.
+	if prop == "C10" && ch.Pick(3, 0) == 2 {
+		f := icFile{Meta: &icMeta{Version: "5", Root: genesisRoot}}
+		live := map[int]Watermark{}
+		for k := 0; k < nKeys; k++ {
+			w := released[pop.Accts[k].KName]
+			nw := Watermark{Slot: max(w.Slot, 0) + int64(1+ch.Pick(50, 0)), Src: max(w.Src, 0) + int64(1+ch.Pick(30, 0))}
+			nw.Tgt = max(w.Tgt, nw.Src) + int64(1+ch.Pick(30, 0))
+			live[k] = nw
+			f.Data = append(f.Data, icData{PubKey: "0x" + hex.EncodeToString(pop.Accts[k].PubKey),
+				Blocks: []icBlock{{Slot: strconv.FormatInt(nw.Slot, 10)}}, Atts: []icAtt{{Source: strconv.FormatInt(nw.Src, 10), Target: strconv.FormatInt(nw.Tgt, 10)}}})
+		}
+		body, _ := json.Marshal(f)
+		path := filepath.Join(d.Base, "interchange-live.json")
+		if err := os.WriteFile(path, body, 0o600); err != nil {
+			t.Fatalf("write: %v", err)
+		}
+		code, _, _ := daemonCLI(t, d, cwd("import-live"), "--import-slashing-protection", "--genesis-validators-root="+genesisRoot, "--slashing-protection-file="+path)
+		rc.Stats.Inc("daemon_cli_imports_while_daemon_running", 1)
+		if code == 0 && d.Alive() {
+			rc.Stats.Inc("daemon_cli_imports_while_daemon_running_reported_success", 1)
+			for k := 0; k < nKeys; k++ {
+				nw := live[k]
+				uniq++
+				if (&Op{Kind: "prop", Entries: []Entry{PropEntry(k, uint64(nw.Slot), uniq)}}).ExecVia(context.Background(), pop.Population, api).OK(0) {
+					rc.Violate("C10", "conflicting-proposal-signed-after-import", fmt.Sprintf("key %s: an import run while the daemon was up reported success for a file with slot %d, and the running daemon then signed a proposal at that slot", pop.Accts[k].KName, nw.Slot), k)
+					return
+				}
+				// refused: the import bound the daemon; what it released is unchanged
+			}
+			for k := 0; k < nKeys; k++ {
+				w := released[pop.Accts[k].KName]
+				released[pop.Accts[k].KName] = maxW(w, live[k])
+			}
+		}
+	}
 	if ch.Pick(2, 0) == 1 {
 		d.Stop()
 	} else {
 		d.Kill()
 	}
-	cwd := func(tag string) string { return filepath.Join(d.Base, "shell-"+tag) }
 	code, out, se := daemonCLI(t, d, cwd("export"), "--export-slashing-protection", "--genesis-validators-root="+genesisRoot)
 	rc.Stats.Inc("daemon_cli_exports", 1)
 	if code != 0 {
